@@ -22,7 +22,6 @@ RULE = ("Generated (system, integrator configuration from the documented lattice
         "shortened; distinct by case hash.")
 ASSUMPTIONS = [
     "the heartbeat is called once before the first step and once after every step (it is the only observation channel between steps)",
-    "status values seen by the heartbeat (RUNNING=-1, LAST_STEP=-2) are the documented enum of rebound.h",
     "for adaptive schemes 'restores the step size' means: dt after the call is the last full step taken before the "
     "final approach to tmax began (dt_last_done at the boundary where LAST_STEP was entered), or the user's dt if there was none",
     "time recurrences accepted per step: t+dt or (t+dt/2)+dt/2",
@@ -64,6 +63,8 @@ def make_sim(case):
     apply_cfg(sim, case["cfg"])
     sim.t = case["t0"]
     sim.dt = case["usign"] * case["dt_frac"] * sysd["P_min"]
+    if not case["cfg"]["fixed_step"]:
+        sim.dt *= case.get("dt_big", 1.0)   # adaptive schemes: also first guesses far above what they will accept
     return sim
 
 
@@ -112,6 +113,7 @@ contract_case = st.fixed_dictionaries({
     "cfg": S.integrator_config(),
     "dt_frac": S.logfloats(1e-3, 0.06),
     "usign": st.sampled_from([1.0, 1.0, -1.0]),
+    "dt_big": st.sampled_from([1.0, 1.0, 8.0, 40.0]),
     "t0": st.sampled_from(T0S),
     "calls": st.lists(call, min_size=1, max_size=4),
 })
@@ -247,7 +249,15 @@ def run_contract(case, ctx):
             if rb.dbits(abs(dt1)) != rb.dbits(abs(dt0)):
                 raise Violation("step size not restored: |dt| %r before, %r after; %s" % (abs(dt0), abs(dt1), where))
         elif eft == 1:
-            js = [j for j in range(n) if log[j][4] == RUNNING and log[j + 1][4] == LAST_STEP]
+            # the final approach begins at the last boundary j where the proposed step (dt seen by the heartbeat,
+            # before integrate shortens it) would reach tmax while the one before did not
+            js = []
+            last_mode = False
+            for j in range(n):
+                over = (log[j][0] + log[j][1]) * dirn >= tmax * dirn
+                if over and not last_mode:
+                    js.append(j)
+                last_mode = over
             if js:
                 j = js[-1]
                 exp = log[j][2] if log[j][2] != 0.0 else math.copysign(dt0, dirn)
